@@ -66,6 +66,35 @@ example : commentBody [32, 97, 45, 45, 10, 62, 45] := by
   have h : i = 0 ∨ i = 1 ∨ i = 2 ∨ i = 3 ∨ i = 4 ∨ i = 5 ∨ i = 6 := by omega
   rcases h with rfl | rfl | rfl | rfl | rfl | rfl | rfl <;> decide
 
+/-- … as the tokenizer's callers see it: in front of a complete comment `readToken` returns the same
+    token and the same cursor behind it as it does behind the comment (only `commentEnd` differs, which
+    the tag name, the attribute loop, the end tag and the prologue never look at).  So between any two
+    tokens of a tag, in front of the root and between processing instructions a comment is read over. -/
+theorem comments_between_tokens (t : Bytes) (p : Pos) (body rest : Bytes)
+    (h : t.drop p.pos = [60, 33, 45, 45] ++ (body ++ ([45, 45, 62] ++ rest))) (hb : commentBody body) :
+    ∃ q : Pos, q.pos = p.pos + 4 + body.length + 3 ∧ (PosOK t p → PosOK t q) ∧
+      tokenOnly (readToken t p) = tokenOnly (readToken t q) :=
+  readToken_comment t p body rest h hb
+
+/-- … and in element content ("comments next to text"): in front of a complete comment the content
+    loop returns exactly what it returns when started behind the comment — children, texts (a text
+    that follows starts behind the comment) and final cursor — for any fuel. -/
+theorem comments_in_content (t : Bytes) (p : Pos) (body rest : Bytes) (f : Nat)
+    (h : t.drop p.pos = [60, 33, 45, 45] ++ (body ++ ([45, 45, 62] ++ rest))) (hb : commentBody body) :
+    ∃ q : Pos, q.pos = p.pos + 4 + body.length + 3 ∧ (PosOK t p → PosOK t q) ∧
+      parseContent t (f + 1) p = parseContent t (f + 1) q :=
+  parseContent_comment t p body rest f h hb
+
+/- OPEN: comments at full strength as a statement about two texts — for `pre`, `post` with `pre` ending
+   at a token boundary outside a text node and outside a string,
+   `parse (pre ++ "<!--body-->" ++ post)` and `parse (pre ++ post)` agree up to recorded positions.
+   Not proved: it needs the translation invariance of the whole parser (same run on a text shifted by
+   the comment's length, line/column shifted).  What is proved instead is the same-text form above:
+   at every place where the parser looks for a token or for content, starting in front of the comment
+   equals starting behind it (`comments_are_whitespace`, `comments_between_tokens`,
+   `comments_in_content`).  Note the code also accepts a comment in places XML does not
+   (`<a <!-- c --> x='1'/>`); the theorems state acceptance, not XML conformance. -/
+
 /-- Processing instructions before the root element: in front of `<?body?>` — body without `<`
     and without `?>`, any other bytes incl. lone `?` and line breaks, e.g. the
     `<?xml version=… encoding=…?>` declaration, also spread over several lines — one round of
@@ -85,7 +114,31 @@ example : piBody [120, 109, 108, 32, 97, 61, 34, 49, 34, 63, 10, 32, 98] := by
   have h : i = 0 ∨ i = 1 ∨ i = 2 ∨ i = 3 ∨ i = 4 ∨ i = 5 ∨ i = 6 ∨ i = 7 ∨ i = 8 ∨ i = 9 ∨ i = 10 ∨ i = 11 ∨ i = 12 := by omega
   rcases h with rfl | rfl | rfl | rfl | rfl | rfl | rfl | rfl | rfl | rfl | rfl | rfl | rfl <;> decide
 
-/- OPEN: pi_before_root at full strength — the same for every processing instruction body that
+/-- Processing instructions before the root, end to end: for every text that consists of white space,
+    any number of processing instructions `<?body?>` (`piBody`, each followed by any white space) and
+    then a `<` that opens neither a processing instruction nor a comment, `parse` reads the root element
+    at the cursor behind the whole prologue (`parseRootAt`, the part of `parseDoc` behind the loop), and
+    that cursor's line bookkeeping is right — the prologue contributes nothing else to the result. -/
+theorem pi_prologue_skipped_partial (ws0 : Bytes) (pis : List (Bytes × Bytes)) (d : UInt8) (rest : Bytes)
+    (hws0 : ∀ b ∈ ws0, isSpace b = true) (hok : prologueOk pis) (hd63 : d ≠ 63) (hd33 : d ≠ 33) :
+    ∃ r : Pos, r.pos = ws0.length + (prologue pis).length ∧
+      PosOK (ws0 ++ (prologue pis ++ 60 :: d :: rest)) r ∧
+      parseDoc (ws0 ++ (prologue pis ++ 60 :: d :: rest)) = parseRootAt (ws0 ++ (prologue pis ++ 60 :: d :: rest)) r :=
+  parseDoc_prologue ws0 pis d rest hws0 hok hd63 hd33
+
+/-- non-vacuity: `<?xml v?>\n<?a?>` is such a prologue -/
+example : prologueOk [([120, 109, 108, 32, 118], [10]), ([97], [])] := by
+  refine ⟨?_, by decide, ?_, by decide, trivial⟩
+  · intro i hi
+    simp at hi
+    have h : i = 0 ∨ i = 1 ∨ i = 2 ∨ i = 3 ∨ i = 4 := by omega
+    rcases h with rfl | rfl | rfl | rfl | rfl <;> decide
+  · intro i hi
+    simp at hi
+    subst hi
+    decide
+
+/- OPEN: pi_before_root at full strength — the same (both theorems above) for every processing instruction body that
    does not contain `?>`, i.e. also bodies containing `<`.  Not proved; not even true of the code
    in one corner: behind a `?` or a line break inside the instruction `parse` calls skipSpace,
    which also skips a comment, so `<?x ?<!-- ?> -->` is not ended by its first `?>` (the
@@ -95,6 +148,10 @@ example : piBody [120, 109, 108, 32, 97, 61, 34, 49, 34, 63, 10, 32, 98] := by
     (`'"&<>` as entities, line breaks in attribute values as `&#10;` / `&#13;`). -/
 theorem escape_unescape (attr : Bool) (s : Bytes) : unescape (escape attr s) = s :=
   unescapeF_escape attr s _ (Nat.le_refl _)
+
+/-- Unescaping never lengthens: `unescapeString` writes through `dest` into `String result(str.length())`;
+    every reference shrinks (`&#N;` is at least 4 bytes and yields at most 4 bytes of UTF-8, `&name;` yields 1). -/
+theorem unescape_no_growth (s : Bytes) : (unescape s).length ≤ s.length := unescape_length_le s
 
 /-- Buffer management of `escapeString` (EscapeMem.lean: capacity arithmetic as coded — initial
     `length + N`, `resize` + `reserve(policy)` at every escape, capacities rounded by `String::detach`,
@@ -156,5 +213,24 @@ example : (Elem.mk [97] 0 0 [([120, 45, 121], [108, 49, 10, 108, 50, 34]), ([98]
     (.text [32, 47, 120] (.elem (.mk [98] 0 0 [] .nil) (.text [195, 169, 38]
       (.elem (.mk [99] 0 0 [] (.text [116] .nil)) .nil))))).nulFree = true := by
   constructor <;> decide
+
+/- OPEN: "copies of element values are independent of their source" (third sentence of C16).
+   NO theorem of this file speaks about it.  In this model element values are immutable Lean values, so
+   the clause holds trivially and says nothing about the code that implements it: `Xml::Variant`'s
+   ref-counted payload block and the clone in the mutable `toElement()` (Xml.hpp).  Covered instead by
+   (a) the Rc area (property C09), whose model has `Xml::Variant` blocks with reference counts and the
+       mutable accessor as clone-if-shared (op `xElem`, Nstd/Rc/Model.lean) and proves for every history of
+       String / Variant / Xml::Variant calls: `Nstd.Rc.no_inplace_write_while_shared` and
+       `Nstd.Rc.st_write_sole` (a block is written in place only while exactly one handle refers to it),
+       `Nstd.Rc.mt_view_stable` (what one handle sees is unchanged by steps through other handles),
+       `Nstd.Rc.ref_counts_handles`, `Nstd.Rc.freed_once_after_last`, `Nstd.Rc.no_use_after_drop` —
+       at the level of one Variant payload, not of whole element trees;
+   (b) the correspondence run of this area only (tested, not proved): ops `copy` (Element copy
+       constructor / assignment, edits of the copy, source destroyed first) and `deep` (write through the
+       mutable `toElement()` down a path of shared payloads, Variant assignment incl. self-assignment),
+       under ASan, against the Python reference.
+   A proof would need a heap model of nested shared payloads (element tree = unfolding of blocks) with
+   `copy_independent : after copy / assign / mutable access / edit through one handle, the unfolding of
+   every other handle is unchanged` over op histories. -/
 
 end Nstd.Xml
